@@ -236,6 +236,31 @@ pub fn families(quick: bool) -> Vec<Family> {
         ladders.push(Input::Regex(format!("a{}", "?".repeat(n.min(2000)))));
         ladders.push(Input::Lark(format!("start: \"{}\"", "a".repeat(n * 10))));
         ladders.push(Input::Lark(format!("start: {}", (0..n.min(20000)).map(|i| format!("\"a{i}\"")).collect::<Vec<_>>().join(" | "))));
+        // every recursive syntactic construct gets a ladder, in every position it can occur
+        for (open, close) in [("start: %lark {\n", "}\n"), ("start[stop=%lark {\n", "}]: /[a-z]*/\n"), ("start[suffix=%lark {\n", "}]: /[a-z]*/\n")] {
+            let d = n.min(3000);
+            ladders.push(Input::Lark(format!("{}start: \"x\"\n{}", open.repeat(d), close.repeat(d))));
+        }
+        ladders.push(Input::Lark(format!("start: {}\"a\"{}", "(\"b\" | ".repeat(n.min(3000)), ")".repeat(n.min(3000)))));
+        ladders.push(Input::Lark(format!("start: T\nT: {}\"a\"{}", "~(".repeat(n.min(3000)), ")".repeat(n.min(3000)))));
+        ladders.push(Input::Lark(format!("start: %json {}{}{}", "{\"items\":".repeat(n.min(100)), "{}", "}".repeat(n.min(100)))));
+        ladders.push(Input::Regex(format!("{}a{}", "(?:".repeat(n.min(3000)), ")*".repeat(n.min(3000)))));
+        ladders.push(Input::Regex(format!("{}a{}", "[a&&[".repeat(n.min(500)), "]]".repeat(n.min(500)))));
+        let mut any_of = json!({"type": "null"});
+        for _ in 0..n.min(100) {
+            any_of = json!({"anyOf": [any_of, {"type": "boolean"}]});
+        }
+        ladders.push(Input::Json(any_of));
+        let mut all_of = json!({"type": "integer"});
+        for i in 0..n.min(100) {
+            all_of = json!({"allOf": [all_of, {"minimum": i}]});
+        }
+        ladders.push(Input::Json(all_of));
+        let mut props = json!({"type": "null"});
+        for _ in 0..n.min(100) {
+            props = json!({"type": "object", "properties": {"a": props}, "additionalProperties": false});
+        }
+        ladders.push(Input::Json(props));
         let mut nested = json!({"type": "null"});
         for _ in 0..n.min(3000) {
             nested = json!({"type": "array", "items": nested});
